@@ -317,6 +317,13 @@ func c16Query(c *core.Ctx) {
 	}
 }
 
+// c16Latest: getLatestL1InfoTreeIndex (where the FEP downloader resumes its scan) is the greatest index recorded.
+func c16Latest(c *core.Ctx) {
+	checkOrdered(c, "C16-latest", []orderedSpec{
+		{"lastgersync", "processor", "getLatestL1InfoTreeIndex", "IMPORTED_GLOBAL_EXIT_ROOT", "DESC", nil, [][]string{{"L1_INFO_TREE_INDEX"}}},
+	})
+}
+
 func init() {
 	register(&Property{
 		ID:    "C16",
@@ -332,6 +339,7 @@ func init() {
 					ruleTxThrough(c, "C16-tx", fn)
 				}
 			}, Text: "[TX]+[ERR] (shared with C07) GER insert/delete go through the block's tx and their failures abort the block"},
+			{ID: "C16-latest", Floor: 1, Run: c16Latest, Text: "SQL: the resume index of the FEP scan is the greatest imported index"},
 			{ID: "C16-query", Floor: 3, Run: c16Query, Text: "SQL tokens: min index >= $1; façade pass-through; PK(block_num)"},
 		},
 	})
